@@ -139,6 +139,9 @@ def _call(cs, f, s):
         return (f.fillna_leading if cs['leading'] else f.fillna_trailing)(P.dec(cs['v']), axis=cs['axis'])
     if op == 'f_count':
         return f.count(axis=cs['axis'])
+    from . import shape
+    if op in shape.OPS:
+        return shape.call(cs, f, s)
     raise ValueError('unknown op %r' % op)
 
 
